@@ -33,7 +33,7 @@ def build_schema(spec=None):
         w=fields.KEYWORD(scorable=True, field_boost=spec.get("w_boost", 1.0)),
         n=fields.NUMERIC(int, bits=spec.get("n_bits", 32), signed=spec.get("n_signed", True),
                          shift_step=spec.get("n_step", 4), sortable=spec.get("n_sortable", True),
-                         stored=True),
+                         stored=True, unique=spec.get("n_unique", False)),
         d=fields.DATETIME(sortable=spec.get("d_sortable", False), stored=False),
         g=fields.ID(stored=True, sortable=spec.get("g_sortable", False)),
     )
@@ -68,6 +68,7 @@ class Model(object):
         m.docs = collections.OrderedDict(self.docs)
         m.generation = self.generation
         m.ndeleted_total = self.ndeleted_total
+        m.unique_n = getattr(self, "unique_n", False)
         return m
 
     def live(self):
@@ -128,6 +129,11 @@ def apply_tx(ix, model, tx, refeval=None, to_query=None, writer=None, results=No
                 w.update_document(**doc_kwargs(op[1]))
                 if op[1]["k"] in committed:
                     pending_del.add(op[1]["k"])
+                if getattr(model, "unique_n", False) and op[1].get("n") is not None:
+                    # every unique field is consulted: committed documents with the same n go too
+                    for k2, d2 in committed.items():
+                        if d2.get("n") == op[1]["n"]:
+                            pending_del.add(k2)
                 pending_add.append(op[1])
             elif kind == "delk":
                 n = w.delete_by_term("k", op[1])
@@ -192,6 +198,7 @@ def build(hist, kind="ram", path=None, refeval=None, to_query=None):
     schema = build_schema(hist.get("schema"))
     ix = create_index(kind, path, schema)
     model = Model()
+    model.unique_n = bool((hist.get("schema") or {}).get("n_unique"))
     for tx in hist["txs"]:
         apply_tx(ix, model, tx, refeval, to_query)
     return ix, model
